@@ -321,16 +321,14 @@ func (e *Exec) mergeVal(c *Term, a, b Value) Value {
 			return x
 		}
 	case *Slice:
-		if y, ok := b.(*Slice); ok && x.b == y.b && x.c == y.c && (x.b != nil || x.c == nil || sameIntPath(x.cpath, y.cpath)) {
-			if x.isNil() != y.isNil() {
-				break
-			}
-			return &Slice{b: x.b, c: x.c, cpath: x.cpath, elem: x.elem,
-				off: e.tb.Ite(c, x.off, y.off), len: e.tb.Ite(c, x.len, y.len), cap: e.tb.Ite(c, x.cap, y.cap)}
+		// slices/strings are only merged when identical: differing headers are
+		// cheaper to fork on (lengths stay concrete on each path)
+		if y, ok := b.(*Slice); ok && x.b == y.b && x.c == y.c && sameIntPath(x.cpath, y.cpath) && x.off == y.off && x.len == y.len && x.cap == y.cap {
+			return x
 		}
 	case *Str:
-		if y, ok := b.(*Str); ok && x.b == y.b {
-			return &Str{b: x.b, off: e.tb.Ite(c, x.off, y.off), len: e.tb.Ite(c, x.len, y.len)}
+		if y, ok := b.(*Str); ok && x.b == y.b && x.off == y.off && x.len == y.len {
+			return x
 		}
 	}
 	panic(specAbort{"merge of non-scalars"})
